@@ -46,3 +46,39 @@ Proof.
   - unfold init. repeat step_valid.
   - vm_compute. reflexivity.
 Qed.
+
+(* ---- the dense refinement: a valid AND safe history (Slice / AppendVector share cells, the
+   later in-place writes go to vectors that hold no shared cell) and its dense run ------------- *)
+From ADV Require Import C11.Dense C11.ProofsDense.
+Definition ex_safe_ops : list op :=
+  [New [1; 3] [5; -2] 4; SetAt 0 0 7; Swap 0 1 2; Permute 0 [1; 0; 3; 2]; Slice 0 1 3;
+   Sort 0 false; AppendV 0 1; ReverseOrder 2; Clone 2; SetV 3 (OD [0; 7; 0; 0; 1; 0]); MapMul 3 2;
+   SETV 3 2; Reset 3; AppendS 3 [4; 0]; Iterate 0].
+Ltac step_valid_safe :=
+  match goal with
+  | |- valid_safe ?w (?o :: ?r) =>
+      let w' := eval vm_compute in (fst (step w o)) in
+      cut (in_range w o /\ safe w o /\ valid_safe w' r);
+      [ let H := fresh in intro H; split; [exact (proj1 H)|]; split; [exact (proj1 (proj2 H))|];
+        replace (fst (step w o)) with w' by (vm_compute; reflexivity); exact (proj2 (proj2 H))
+      | split; [fin|split; [apply safeb_sound; vm_compute; reflexivity|]] ]
+  | |- valid_safe _ [] => exact I
+  end.
+Example ex_valid_safe : valid_safe init ex_safe_ops.
+Proof. unfold ex_safe_ops, init. repeat step_valid_safe. Qed.
+Example ex_dense_run :
+  dense_run [] ex_safe_ops =
+  [[-2; 0; 5; 7]; [7; 0]; [7; 0; 7; 5; 0; -2]; [0; 0; 0; 0; 0; 0]; [0; 0; 0; 0; 0; 0; 4; 0]] /\
+  absw (run init ex_safe_ops) = dense_run [] ex_safe_ops.
+Proof. vm_compute. auto. Qed.
+(* an UNSAFE write (through a cell shared with a slice) is outside the refinement theorem: here the
+   sparse world and the copying dense model disagree (cf. slice_write_through_refuted) *)
+Example ex_unsafe_differs :
+  let ops := [New [1] [5] 4; Slice 0 0 3; SetAt 1 1 7] in
+  valid init ops /\ ~ valid_safe init ops /\ absw (run init ops) <> dense_run [] ops.
+Proof.
+  split; [unfold init; repeat step_valid|]. split.
+  - intros (_ & _ & _ & _ & S & _). unfold safe in S. cbn [writes_cells] in S.
+    apply (S 0%nat 0%nat); [lia| |]; vm_compute; auto.
+  - vm_compute. discriminate.
+Qed.
